@@ -27,19 +27,33 @@ from y0.graph import NxMixedGraph
 PREFIX = "V"
 # naming schemes: node i of the spec is V<i> by default; "latent-like" names it u_<i-1>, the names the library itself
 # gives to the latent parents of bidirected edges (y0.graph.DEFULT_PREFIX), so that an observed node may look like one
-_NAMING = {"scheme": "V"}
+# "permuted": node i is V<perm(i)> for a seeded permutation of 1..9, so that the alphabetical order of the names is
+# unrelated to the numbering (and hence to the topological numbering of the ordered families)
+_NAMING = {"scheme": "V", "perm": None, "inv": None}
 
 
-def set_naming(scheme: str) -> None:
-    if scheme not in ("V", "latent-like"):
+def set_naming(scheme: str, seed: int = 0) -> None:
+    if scheme not in ("V", "latent-like", "permuted"):
         raise ValueError(scheme)
     _NAMING["scheme"] = scheme
+    if scheme == "permuted":
+        ids = list(range(1, 10))
+        sh = ids[:]
+        random.Random(seed * 7919 + 13).shuffle(sh)
+        _NAMING["perm"] = dict(zip(ids, sh))
+        _NAMING["inv"] = dict(zip(sh, ids))
+
+
+def _name(i: int) -> str:
+    if _NAMING["scheme"] == "latent-like":
+        return f"u_{i - 1}"
+    if _NAMING["scheme"] == "permuted" and i in _NAMING["perm"]:
+        return f"{PREFIX}{_NAMING['perm'][i]}"
+    return f"{PREFIX}{i}"
 
 
 def var(i: int) -> Variable:
-    if _NAMING["scheme"] == "latent-like":
-        return Variable(f"u_{i - 1}")
-    return Variable(f"{PREFIX}{i}")
+    return Variable(_name(i))
 
 
 def num(v: Any) -> int:
@@ -50,7 +64,10 @@ def num(v: Any) -> int:
         return int(name[2:]) + 1
     if not name.startswith(PREFIX) or not name[len(PREFIX) :].isdigit():
         raise KeyError(name)
-    return int(name[len(PREFIX) :])
+    k = int(name[len(PREFIX) :])
+    if _NAMING["scheme"] == "permuted" and k in _NAMING["inv"]:
+        return _NAMING["inv"][k]
+    return k
 
 
 def build_graph(g: dict, order: int = 0) -> NxMixedGraph:
@@ -168,15 +185,15 @@ def pop_num(p) -> int:
 
 def de_var(v: dict) -> Variable:
     """Build a variable with the public operators (+X, -X, Y @ X), as a user of the DSL would."""
-    x = Variable(f"{PREFIX}{v['n']}")
+    x = Variable(_name(v["n"]))
     if v["s"] == 1:
         x = -x
     elif v["s"] == 2:
         x = +x
     if v["iv"]:
-        ivs = [+Variable(f"{PREFIX}{i[0]}") if i[1] == 2 else -Variable(f"{PREFIX}{i[0]}") for i in v["iv"]]
+        ivs = [+Variable(_name(i[0])) if i[1] == 2 else -Variable(_name(i[0])) for i in v["iv"]]
         star = x.star
-        x = Variable(f"{PREFIX}{v['n']}") @ ivs
+        x = Variable(_name(v["n"])) @ ivs
         if star is not None:
             x = +x if star else -x
     return x
